@@ -336,8 +336,18 @@ pub fn miri_jobs(prop: &str) -> Vec<Job> {
     v
 }
 
+/// every sequence of up to four polls with three distinct wakers, then the serving operation
+pub fn wakerseq_job(thorough: bool) -> Job {
+    job(Cfg::new("wakerseq", &[("x", 0)]), false, thorough)
+}
+/// long histories (set/reset resp. release/acquire cycles around 2^8 and 2^16) between two polls of one future
+pub fn cycles_job(thorough: bool) -> Job {
+    job(Cfg::new("cycles", &[("x", 0)]), false, thorough)
+}
+
 pub fn all_jobs(thorough: bool) -> Vec<Job> {
     let mut v = vec![];
+    v.push(wakerseq_job(thorough));
     v.extend(burst_jobs(thorough, &[0, 1, 2, 3, 4, 5, 6, 7, 8, 9]));
     v.extend(wide_jobs(thorough));
     v.extend(mutex_jobs(thorough, false));
@@ -380,6 +390,7 @@ pub fn plan(prop: &str, tier: &str) -> Vec<Job> {
         }
         "C15" => {
             let mut v = timer_jobs(t);
+            v.push(wakerseq_job(t));
             v.extend(burst_jobs(t, &[7, 9]));
             // value sweep of delay(d): every whole millisecond up to 20 s, sub-millisecond
             // remainders, the neighbourhood of every power of two up to 2^70 ms
@@ -394,6 +405,7 @@ pub fn plan(prop: &str, tier: &str) -> Vec<Job> {
         }
         "C10" => {
             let mut v = mpmc_jobs(t, true);
+            v.push(wakerseq_job(t));
             v.extend(script_jobs(t, &[2, 3], true));
             v.extend(capscript_jobs(t));
             v
@@ -405,23 +417,28 @@ pub fn plan(prop: &str, tier: &str) -> Vec<Job> {
         }
         "C14" => {
             let mut v = event_jobs(t);
+            v.push(wakerseq_job(t));
+            v.push(cycles_job(t));
             v.push(job(Cfg::new("event.local", &[("set", 0), ("k", if t { 7 } else { 6 })]), false, t));
             v.extend(burst_jobs(t, &[0]));
             v
         }
         "C12" => {
             let mut v = oneshot_jobs(t);
+            v.push(wakerseq_job(t));
             v.extend(burst_jobs(t, &[4, 5]));
             v
         }
         "C13" => {
             let mut v = state_jobs(t);
+            v.push(wakerseq_job(t));
             v.extend(burst_jobs(t, &[6]));
             v
         }
         "C02" => mutex_jobs(t, false),
         "C03" => {
             let mut v = mutex_jobs(t, true);
+            v.push(wakerseq_job(t));
             v.extend(burst_jobs(t, &[8]));
             v
         }
@@ -429,6 +446,8 @@ pub fn plan(prop: &str, tier: &str) -> Vec<Job> {
         "C05" | "C07" => sem_jobs(t, false),
         "C06" => {
             let mut v = sem_jobs(t, true);
+            v.push(wakerseq_job(t));
+            v.push(cycles_job(t));
             v.extend(burst_jobs(t, &[1]));
             v
         }
